@@ -1409,13 +1409,19 @@ func (sg *schemaGenContext) buildAdditionalProperties() error {
 	return nil
 }
 
-func (sg *schemaGenContext) makeNewStruct(name string, schema spec.Schema) *schemaGenContext {
-	debugLog("making new struct: name: %s, container: %s", name, sg.Container)
-	sp := sg.TypeResolver.Doc.Spec()
+// newStructName is the name under which makeNewStruct registers a new schema in the spec document.
+func (sg *schemaGenContext) newStructName(name string) string {
 	name = swag.ToGoName(name)
 	if sg.TypeResolver.ModelName != sg.Name {
 		name = swag.ToGoName(sg.TypeResolver.ModelName + " " + name)
 	}
+	return name
+}
+
+func (sg *schemaGenContext) makeNewStruct(name string, schema spec.Schema) *schemaGenContext {
+	debugLog("making new struct: name: %s, container: %s", name, sg.Container)
+	sp := sg.TypeResolver.Doc.Spec()
+	name = sg.newStructName(name)
 	if sp.Definitions == nil {
 		sp.Definitions = make(spec.Definitions)
 	}
@@ -1735,7 +1741,15 @@ func (sg *schemaGenContext) shortCircuitNamedRef() (bool, error) {
 
 		tpe.SwaggerType = tpx.SwaggerType
 		sch := spec.Schema{}
+		// makeNewStruct registers the new (empty) schema in the spec document under the name of this very definition:
+		// put the original definition back, since the schemas built later still resolve their $ref against it
+		sp := sg.TypeResolver.Doc.Spec()
+		key := sg.newStructName(sg.Name)
+		orig, hadOrig := sp.Definitions[key]
 		pg := sg.makeNewStruct(sg.Name, sch)
+		if hadOrig {
+			sp.Definitions[key] = orig
+		}
 		if err := pg.makeGenSchema(); err != nil {
 			return true, err
 		}
